@@ -981,6 +981,38 @@ func bitsSet(m int) int {
 	return n
 }
 
+// OrderedLess is "the < operator" (NaN is left out: the build for Go >= 1.21 uses cmp.Less, which
+// orders NaN first, and the documentation does not say which of the two is meant there).
+func checkOrderedLess() {
+	ints := []int{-2, -1, 0, 1, 2, 1 << 40}
+	for _, a := range ints {
+		for _, b := range ints {
+			atomic.AddInt64(&cases, 1)
+			if xsort.OrderedLess(a, b) != (a < b) || xsort.OrderedLess(int8(a), int8(b)) != (int8(a) < int8(b)) || xsort.OrderedLess(uint(a), uint(b)) != (uint(a) < uint(b)) {
+				fail("xsort/OrderedLess", "OrderedLess(%d,%d) on int/int8/uint disagrees with <", a, b)
+			}
+		}
+	}
+	fl := []float64{math.Inf(-1), -1.5, math.Copysign(0, -1), 0, 1e-300, 2.5, math.Inf(1)}
+	for _, a := range fl {
+		for _, b := range fl {
+			atomic.AddInt64(&cases, 1)
+			if xsort.OrderedLess(a, b) != (a < b) {
+				fail("xsort/OrderedLess", "OrderedLess(%v,%v) = %v, a < b is %v", a, b, xsort.OrderedLess(a, b), a < b)
+			}
+		}
+	}
+	strs := []string{"", "a", "A", "ab", "b", "\xff"}
+	for _, a := range strs {
+		for _, b := range strs {
+			atomic.AddInt64(&cases, 1)
+			if xsort.OrderedLess(a, b) != (a < b) {
+				fail("xsort/OrderedLess", "OrderedLess(%q,%q) = %v, a < b is %v", a, b, xsort.OrderedLess(a, b), a < b)
+			}
+		}
+	}
+}
+
 func main() {
 	run = vx.Start("C19")
 	maxLen, seeds := 6, 1<<9
@@ -1060,6 +1092,7 @@ func main() {
 	}
 	checkMerge(nil, [3]int{0, 1, 2})
 	checkMerge([][]int{{}}, [3]int{0, 1, 2})
+	checkOrderedLess()
 	checkXmaps()
 	checkXmath()
 	checkXerrors()
